@@ -1,6 +1,7 @@
 import BFL.Proofs.RaceTable
 import BFL.Proofs.RacePhase
 import BFL.Proofs.RaceScoped
+import BFL.Proofs.RaceObject
 /-
 C10 — the control interface may be used from another thread without data races.
 
@@ -42,12 +43,21 @@ TRUSTED (not proved):
      `lock_guard` / `unique_lock` / `scoped_lock` scopes on mutex members of `this` (early `unlock()`,
      loops, stored lambdas treated conservatively), entry locksets of functions only called under a
      lock, expansion of virtual calls over the class hierarchy;
-     not seen: accesses through raw pointers to members, calls through `std::function`, manual
-     `m.lock()` / `m.unlock()` (treated as unlocked), code outside namespace bfl (Eigen, libstdc++);
+     lambdas stored in `std::function` members are resolved to pseudo-functions `Class::member$closure`
+     called where the member is invoked; manual `m.lock(); … m.unlock();` and `lk.lock()` re-locks are
+     recognised at block level; functions handing out references / pointers / `Eigen::Ref` into members get
+     no lock credited (the reference may outlive every scope) and count as writes unless const;
+     not seen: what *user code* does with such a reference on another thread, `std::function`s that are
+     not members, code outside namespace bfl (Eigen, libstdc++);
   3. the role map (`controllerRoots`, `filterRoots`) and `Conforms` / `Scoped` as a description of what
      the two threads execute between `boot()` and the return of `wait()`; a single controller thread;
   4. the class-level abstraction: a row's lockset names mutex members of the *same object* as the
-     accessed member (both through `this`), objects are distinguished in the semantics (`Loc`, `Mx`).
+     accessed member — an explicit part of `Justified`, necessary (`same_object_necessary`), certified
+     syntactically as far as possible (`table_locks_certified`: locks only via `this`, mutex members only);
+  5. the controller's entry points are the commands the property names (run, reset, reboot, teardown,
+     step number, running state, skip; plus boot / wait).  `Logger::enable_log` / `disable_log` /
+     `get_folder_path` / `get_file_name_prefix` are configuration, not control or query commands of the
+     property: not in the role map (the check reports what they would race with as advisory information).
 The translator and the role map are validated on every run (checks/c10.py): in both directions against
 ThreadSanitizer, and by an independent textual scan of every member function for member names.
 -/
@@ -90,6 +100,15 @@ theorem phase_adj (pre mid post : List Ev) (hpre : ∀ e ∈ pre, e.tid = .contr
 theorem conforms_of_scoped (T : Table) (tr : List Ev) (h : ∀ t, Scoped T t [] (proj t tr)) : Conforms T tr :=
   Race.conforms_of_scoped T tr h
 
+/-- **The class-level abstraction is an explicit, necessary hypothesis.**  `Conforms` (via `Justified`)
+    demands that a row's locks are held on the *same object* as the member it accesses.  Under the
+    weaker reading `ConformsAny` (locks held on some object) the lockset theorem fails: a disciplined
+    member races when the two threads hold the mutexes of two other objects. -/
+theorem same_object_necessary :
+    FieldOK guardedTable 0 ∧ WF crossObjectTrace ∧ ConformsAny guardedTable crossObjectTrace ∧
+      RaceOnField 0 crossObjectTrace :=
+  Race.same_object_necessary
+
 /-- race freedom of a table ⇔ discipline of every member -/
 theorem race_free_iff_disciplined (T : Table) : RaceFree T ↔ ∀ f, FieldOK T f :=
   Race.raceFree_iff T
@@ -109,6 +128,12 @@ theorem table_reach_certified (r : Role) (m : Nat) :
   cases r
   · exact cert_controller.iff m
   · exact cert_filter.iff m
+
+/-- what the translator certifies syntactically towards the same-object hypothesis: a lockset appears only
+    on rows whose object expression is `this` and consists of mutex members only (the translator credits a
+    lock only when mutex and member are reached through the same `this`, in the function itself or in
+    callers along calls on `this`; functions handing out references / pointers / `Eigen::Ref` get none) -/
+theorem table_locks_certified : table.locksCertifiedB = true := locks_certified
 
 /-- **must hold — the join is certified from the table**: the filtering thread performs no operation on
     a thread handle; the controller spawns only in `boot()`, joins only in `wait()`, and otherwise only
